@@ -165,7 +165,8 @@ int orc_cb_count(int cb) { return cbs[cb].count; }
 /* ---------------------------------------------------------------- defer_rcu */
 #define MAXDT 8
 #define MAXDC 1024
-struct dcall { int fn; void *arg; int gp; uint64_t queued, invoked; };
+struct dcall { int fn; void *arg; int gp; uint64_t queued, invoked, finished; };
+static int dlast_t = -1, dlast_i = -1;
 static struct dcall dc[MAXDT][MAXDC];
 static int dn[MAXDT], dnext[MAXDT];
 static struct { uint64_t seq; } dmarks[512];
@@ -182,6 +183,7 @@ void orc_defer_queue(int t, int fn, void *arg)
 	c->arg = arg;
 	c->queued = 0;
 	c->invoked = 0;
+	c->finished = 0;
 	c->gp = orc_gp_call(t);
 	dn[t]++;
 }
@@ -216,8 +218,24 @@ void orc_defer_invoked(int fn, void *arg)
 		usim_fail("defer-wrong-args", "a deferred function was invoked as (fn%d, %p), which no thread queued", fn, arg);
 	}
 	dc[best][dnext[best]].invoked = usim_seq();
+	dlast_t = best;
+	dlast_i = dnext[best];
 	orc_gp_done(dc[best][dnext[best]].gp, "deferred call");
 	dnext[best]++;
+}
+
+/* end of the body of the deferred function whose orc_defer_invoked() came last in the calling thread */
+void orc_defer_finished(int fn, void *arg)
+{
+	int t = fn / 8, i;
+	(void) arg;
+	if (t < 0 || t >= MAXDT)
+		return;
+	for (i = dnext[t] - 1; i >= 0; i--)
+		if (dc[t][i].fn == fn && dc[t][i].invoked && !dc[t][i].finished) {
+			dc[t][i].finished = usim_seq();
+			return;
+		}
 }
 
 int orc_defer_pending(int t) { return dn[t] - dnext[t]; }
@@ -235,10 +253,11 @@ void orc_defer_check_thread(int t, int mark, const char *what)
 {
 	int i;
 	for (i = 0; i < dn[t]; i++)
-		if (dc[t][i].queued && dc[t][i].queued < dmarks[mark].seq && !dc[t][i].invoked)
+		if (dc[t][i].queued && dc[t][i].queued < dmarks[mark].seq && !dc[t][i].finished)
 			usim_fail("defer-barrier-missed",
-				"%s returned although call #%d (fn%d, %p) queued by thread %d before it has not run",
-				what, i, dc[t][i].fn, dc[t][i].arg, t);
+				"%s returned although call #%d (fn%d, %p) queued by thread %d before it %s",
+				what, i, dc[t][i].fn, dc[t][i].arg, t,
+				dc[t][i].invoked ? "is still running (it has not returned yet)" : "has not run");
 }
 
 void orc_defer_check_all(int mark, const char *what)
